@@ -17,6 +17,8 @@ func init() {
 			"parallel fetches and defer groups use a plain errgroup.Group (siblings are never cancelled) that is joined on every path; a failed single-flight leader always releases its followers. " +
 			"It does not decide that unaffected data is identical nor that requests under fault are a subset of the fault-free requests (value level).",
 		Mutants: []Mutant{
+			{Name: "decode error of a subgraph's errors array returned as the operation's error (reverts the F43 fix)", File: "v2/pkg/engine/resolve/loader.go", Rule: "C07-R10", Key: "Loader.appendSubgraphError/decode-error-of-subgraph-errors-not-returned",
+				Old: "\t\tgraphqlErrors = graphqlErrors[:0]\n", New: "\t\treturn errors.WithStack(err)\n"},
 			{Name: "single-flight leader no longer stores its error in the shared item (seeded change C07-21)", File: "v2/pkg/engine/resolve/loader.go", Rule: "C07-R9", Key: "Loader.loadByContext/leader-publishes-error",
 				Old: "\tif err != nil {\n\t\titem.err = err\n\t\treturn err\n\t}\n", New: "\tif err != nil {\n\t\treturn err\n\t}\n"},
 			{Name: "subscription updates render without the loader's errors", File: "v2/pkg/engine/resolve/resolve.go", Rule: "C07-R8", Key: "executeSubscriptionUpdate/hands-over-all-loader-output",
@@ -445,6 +447,7 @@ func runC07(r *fw.Run) {
 	c07TaintEveryMergeTarget(r)
 	c07LoaderOutputReachesRenderer(r)
 	c07LeaderPublishesOutcome(r)
+	c07MalformedSubgraphErrorsStaySoft(r)
 }
 
 func enclosingBlock(stack []ast.Node) *ast.BlockStmt {
@@ -723,4 +726,94 @@ func c07LeaderPublishesOutcome(r *fw.Run) {
 	}
 	in.Run(nil)
 	r.Expect("C07-R9", "exits of the single-flight leader", n, 2)
+}
+
+// c07MalformedSubgraphErrorsStaySoft (R10): whatever a subgraph puts into the `errors` member of its answer is a failure of
+// that subgraph, to be rendered as one entry of the response's errors. The loader re-decodes the member with
+// encoding/json into its own error type (to record it for observability); a subgraph can make that decode fail at will
+// (`"errors":["boom"]`, `{"message":123}`, `"path":"a.b"`). The decode error must not become the error of the operation:
+// no return statement of a Loader method returns a value derived from the error of a json.Unmarshal whose input is
+// marshalled from an astjson.Value parameter (subgraph-controlled bytes). Returned, it aborts the whole operation with a
+// Go error and an empty body — the data of every unrelated subgraph included.
+func c07MalformedSubgraphErrorsStaySoft(r *fw.Run) {
+	p := r.Prog
+	r.Rule("C07-R10", "the error of re-decoding subgraph-controlled bytes (json.Unmarshal of bytes marshalled from an astjson.Value parameter) is never returned by a Loader method: malformed entries of a subgraph's errors array do not abort the operation")
+	n := 0
+	for _, fi := range p.Funcs("resolve") {
+		if fw.RecvName(recvTypeOrNil(fi.Obj)) != "Loader" {
+			continue
+		}
+		info := fi.Info()
+		sig := fi.Obj.Type().(*types.Signature)
+		valueParams := map[types.Object]bool{}
+		for i := 0; i < sig.Params().Len(); i++ {
+			if strings.HasSuffix(sig.Params().At(i).Type().String(), "astjson.Value") {
+				valueParams[sig.Params().At(i)] = true
+			}
+		}
+		if len(valueParams) == 0 {
+			continue
+		}
+		d := fw.NewPureDeriver(fi)
+		fromValueParam := func(e ast.Expr) bool {
+			c, ok := e.(*ast.CallExpr)
+			if !ok {
+				return false
+			}
+			sel, isSel := ast.Unparen(c.Fun).(*ast.SelectorExpr)
+			if !isSel || sel.Sel.Name != "MarshalTo" {
+				return false
+			}
+			id, isID := ast.Unparen(sel.X).(*ast.Ident)
+			return isID && valueParams[info.Uses[id]]
+		}
+		// error variables of such decodes
+		errVars := map[types.Object]ast.Node{}
+		fw.WalkAll(fi.Decl.Body, func(nd ast.Node) bool {
+			as, ok := nd.(*ast.AssignStmt)
+			if !ok || len(as.Rhs) != 1 || len(as.Lhs) != 1 {
+				return true
+			}
+			c, isCall := ast.Unparen(as.Rhs[0]).(*ast.CallExpr)
+			if !isCall || !fw.CallIs(info, c, "encoding/json", "Unmarshal") || len(c.Args) != 2 || !d.Derives(c.Args[0], fromValueParam) {
+				return true
+			}
+			if id, isID := as.Lhs[0].(*ast.Ident); isID {
+				o := info.Defs[id]
+				if o == nil {
+					o = info.Uses[id]
+				}
+				if o != nil {
+					errVars[o] = c
+				}
+			}
+			return true
+		})
+		for o, at := range errVars {
+			n++
+			var bad *ast.ReturnStmt
+			fw.WalkAll(fi.Decl.Body, func(nd ast.Node) bool {
+				ret, ok := nd.(*ast.ReturnStmt)
+				if !ok || bad != nil {
+					return true
+				}
+				for _, res := range ret.Results {
+					fw.WalkAll(res, func(m ast.Node) bool {
+						if id, isID := m.(*ast.Ident); isID && info.Uses[id] == o {
+							bad = ret
+						}
+						return true
+					})
+				}
+				return true
+			})
+			pos := at.Pos()
+			if bad != nil {
+				pos = bad.Pos()
+			}
+			r.Check(bad == nil, "C07-R10", fi.Name()+"/decode-error-of-subgraph-errors-not-returned", p.Pos(pos), "the error of decoding subgraph-controlled bytes in "+fi.Name()+" is not returned",
+				"the decode error is returned up through mergeResult / resolveParallel / LoadGraphQLResponseData: one subgraph answering `{\"errors\":[\"boom\"]}` makes the whole operation fail with a Go error and an EMPTY body — no data (not even of unrelated subgraphs), no GraphQL errors")
+		}
+	}
+	r.Expect("C07-R10", "decodes of subgraph-controlled bytes in Loader methods", n, 1)
 }
